@@ -249,11 +249,35 @@ impl<'r> Builder<'r> {
         let ncases = if record { 1 } else { 2 + self.rng.usize(self.cfg.max_cases.saturating_sub(1).max(1)) };
         let mut cases = vec![];
         for _ in 0..ncases {
-            let cname = if record { "Default".to_string() } else { self.name("C") };
+            // identifiers are case-sensitive: now and then a case (or a field, below) is spelled like an
+            // earlier one except for the case of its letters
+            let flip = |n: &str| -> String { n.chars().map(|c| if c.is_ascii_lowercase() { c.to_ascii_uppercase() } else { c.to_ascii_lowercase() }).collect() };
+            let cname = if record {
+                "Default".to_string()
+            } else if !cases.is_empty() && self.rng.chance(1, 5) {
+                let prev: &Case = &cases[self.rng.usize(cases.len())];
+                let f = flip(&prev.name);
+                if cases.iter().any(|c: &Case| c.name == f) {
+                    self.name("C")
+                } else {
+                    self.tag("case-names-differ-in-letter-case-only");
+                    f
+                }
+            } else {
+                self.name("C")
+            };
             let nf = if !record && self.rng.chance(1, 3) { 0 } else { 1 + self.rng.usize(4) };
             let mut fields = vec![];
             for _ in 0..nf {
-                let f = self.name("f");
+                let mut f = self.name("f");
+                if !fields.is_empty() && self.rng.chance(1, 8) {
+                    let prev: &(String, Ty) = &fields[self.rng.usize(fields.len())];
+                    let g = flip(&prev.0);
+                    if !fields.iter().any(|x: &(String, Ty)| x.0 == g) {
+                        self.tag("field-names-differ-in-letter-case-only");
+                        f = g;
+                    }
+                }
                 let t = self.field_ty(0);
                 fields.push((f, t));
             }
@@ -390,12 +414,17 @@ impl<'r> Builder<'r> {
             }
             10 => {
                 self.tag("slot_to_time");
-                let arg = if risky {
+                let mut arg = if risky {
                     self.tag("risky:compiler-op-over-param");
                     self.param(Ty::Int, Role::Slot)
                 } else {
                     E::Int(crate::env::TIP_SLOT as i128 + self.rng.range(-1000, 100000) as i128)
                 };
+                if self.rng.chance(1, 3) {
+                    // a compound operand: the built-in has to evaluate arithmetic over an applied argument
+                    self.tag("compiler-op-over-arithmetic");
+                    arg = E::Add(Box::new(arg), Box::new(E::Int(self.rng.range(0, 50) as i128)));
+                }
                 E::SlotToTime(Box::new(arg))
             }
             11 => {
@@ -406,6 +435,12 @@ impl<'r> Builder<'r> {
                 } else {
                     // whole seconds after the cursor
                     E::Int(crate::env::TIP_TIME as i128 + 1000 * self.rng.range(0, 100000) as i128)
+                };
+                let arg = if self.rng.chance(1, 3) {
+                    self.tag("compiler-op-over-arithmetic");
+                    E::Add(Box::new(arg), Box::new(E::Int(1000 * self.rng.range(0, 50) as i128)))
+                } else {
+                    arg
                 };
                 E::TimeToSlot(Box::new(arg))
             }
